@@ -1,6 +1,8 @@
 import RbV.Model.Tsv
 import RbV.Lemmas.Tsv
 import RbV.Lemmas.CsvPlain
+import RbV.Thm.GenSrcBed
+import RbV.Thm.GenSrcGff
 /-!
 # C13 — BED and GFF/GTF records survive write → read; comments skipped; malformed lines are errors
 
@@ -230,5 +232,120 @@ example : GffOk gff3 ⟨[34, 97], [35, 9], [92, 10, 13], 1, 20, [46], [43], none
 -- chrom `"\` (quote, backslash), name with TAB and LF, an empty column, a column that is one quote
 example : BedOk 3 ⟨[34, 92], 5, 5000, [[110, 9, 10], [], [34]]⟩ := by
   refine ⟨by decide, by decide, by decide, by decide⟩
+
+/-! ## The writers and the BED record accessors as written in the source (builder gengff)
+
+`RbV/Gen/SrcBed.lean`, `RbV/Gen/SrcGff.lean` are translated from the text of `src/io/bed.rs` / `src/io/gff.rs` on every
+`./check C13` (`tools/rs2lean_gengff.py`; proofs in `Thm/GenSrcBed.lean`, `Thm/GenSrcGff.lean`).  `csv::Writer::serialize` is an
+abstract operation whose contract is the csv writer model (`csvSerialize`: append `recordBody fields ++ [LF]`; trusted, sampled by
+the tie); serde's flattening of the tuple into fields and the decimal form of integers (`toDec`) are part of the trusted reading.
+A `MultiMap` is the list of its key groups in its own — arbitrary — iteration order. -/
+section Source
+open RbV.Thm.GenSrcBed (csvSerialize)
+
+/-- **`bed::Writer::write` as written** appends `bedLine` of the record + LF: chrom, start, end, then the auxiliary columns, in
+both branches (with / without auxiliary columns) -/
+theorem bed_write_source_eq_model (w : List Nat) (self : Gen.SrcBed.Writer) (r : Gen.SrcBed.Record) :
+    Gen.SrcBed.write csvSerialize toDec w self r = (.ok (), w ++ (bedLine (GenSrcBed.toModel r) ++ [LF])) :=
+  GenSrcBed.write_eq_model w self r
+
+/-- **`bed::Record` accessors as written**: `name` / `score` / `strand` are the auxiliary columns 0 / 1 / 2 (`aux(i)` = column
+`i` of the line, panics for `i < 3`), `strand` reads `+` / `-`; the setters change their field, `push_aux` appends a column -/
+theorem bed_record_accessors_source_eq_model (r : Gen.SrcBed.Record) (c : List Nat) (n : Nat) :
+    (Gen.SrcBed.name r = .ok ((GenSrcBed.toModel r).aux[0]?) ∧ Gen.SrcBed.score r = .ok ((GenSrcBed.toModel r).aux[1]?) ∧
+      Gen.SrcBed.strand r = .ok (GenSrcBed.strandOf ((GenSrcBed.toModel r).aux[2]?)) ∧
+      Gen.SrcBed.chrom r = (GenSrcBed.toModel r).chrom ∧ Gen.SrcBed.start r = (GenSrcBed.toModel r).start ∧
+      Gen.SrcBed.end' r = (GenSrcBed.toModel r).stop) ∧
+    (GenSrcBed.toModel (Gen.SrcBed.setChrom r c) = { GenSrcBed.toModel r with chrom := c } ∧
+      GenSrcBed.toModel (Gen.SrcBed.setStart r n) = { GenSrcBed.toModel r with start := n } ∧
+      GenSrcBed.toModel (Gen.SrcBed.setEnd r n) = { GenSrcBed.toModel r with stop := n } ∧
+      GenSrcBed.toModel (Gen.SrcBed.pushAux r c) = { GenSrcBed.toModel r with aux := (GenSrcBed.toModel r).aux ++ [c] }) :=
+  ⟨GenSrcBed.accessors_eq_model r, GenSrcBed.setters_eq_model r c n⟩
+
+/-- the records written one after the other through the translated BED writer, starting from the sink `w` -/
+def bedWriteAll (self : Gen.SrcBed.Writer) : List Gen.SrcBed.Record → List Nat → List Nat
+  | [], w => w
+  | r :: rs, w => bedWriteAll self rs (Gen.SrcBed.write csvSerialize toDec w self r).2
+
+theorem bedWriteAll_eq (self : Gen.SrcBed.Writer) (recs : List Gen.SrcBed.Record) (w : List Nat) :
+    bedWriteAll self recs w = w ++ render (recs.map fun r => bedLine (GenSrcBed.toModel r)) := by
+  induction recs generalizing w with
+  | nil => simp [bedWriteAll, render]
+  | cons r rs ih => simp [bedWriteAll, ih, GenSrcBed.write_eq_model, render]
+
+/-- **BED round trip through the writer as written**: the model reader on the bytes of the translated writer returns the records -/
+theorem bed_roundtrip_source (k : Nat) (self : Gen.SrcBed.Writer) (recs : List Gen.SrcBed.Record)
+    (hrecs : ∀ r ∈ recs, BedOk k (GenSrcBed.toModel r)) :
+    readBed (bedWriteAll self recs []) = recs.map fun r => Res.ok (GenSrcBed.toModel r) := by
+  have h := bed_roundtrip k (recs.map GenSrcBed.toModel) ((recs.map GenSrcBed.toModel).map fun r => Item.record (bedLine r))
+    (by intro r hr; obtain ⟨s, hs, rfl⟩ := List.mem_map.mp hr; exact hrecs s hs)
+    (by simp [List.filterMap_map, Function.comp_def, Item.rec?])
+    (by intro t ht; simp at ht)
+  rw [bedWriteAll_eq, List.nil_append]
+  simpa [fileOf, List.map_map, Function.comp_def, Item.line] using h
+
+/-- **`gff::Writer::write` as written** (hard: what the property determines).  For a writer configured for dialect `d` the bytes
+appended are `gffLine d` of the record — the nine columns, the attribute column assembled with the dialect's delimiters (values
+of a key joined by the value delimiter for GFF3, the key repeated for GFF2/GTF2) — **up to the order of the key groups**: the
+attribute list of the model record is a permutation of the map's groups (the witness is the map's own iteration order, see
+`GenSrcGff.write_eq_model` for the exact form); per-key value order is fixed. -/
+theorem gff_write_source_eq_model (w : List Nat) (d : Dialect) (self : Gen.SrcGff.Writer) (r : Gen.SrcGff.Record)
+    (hw : GenSrcGff.WriterFor d self) (hg : ∀ kv ∈ r.attributes, kv.2 ≠ []) :
+    ∃ g', g'.Perm r.attributes ∧
+      Gen.SrcGff.write csvSerialize toDec w self r
+        = (.ok (), w ++ (gffLine d { GenSrcGff.toModel r with attrs := g' } ++ [LF])) :=
+  ⟨r.attributes, List.Perm.refl _, GenSrcGff.write_eq_model w d self r hw hg⟩
+
+/-- **`GffType::separator` as written** gives the dialects of the model, and the writers built from it are configured for them -/
+theorem gff_type_separator_source_eq_model :
+    (GenSrcGff.dialectOf .GFF3 = gff3 ∧ GenSrcGff.dialectOf .GFF2 = gff2 ∧ GenSrcGff.dialectOf .GTF2 = gff2 ∧
+      ∀ x y z, Gen.SrcGff.separator (.Any x y z) = (x, y, z)) ∧
+    GenSrcGff.WriterFor gff3 (GenSrcGff.writerOf .GFF3) ∧ GenSrcGff.WriterFor gff2 (GenSrcGff.writerOf .GFF2) ∧
+    GenSrcGff.WriterFor gff2 (GenSrcGff.writerOf .GTF2) :=
+  ⟨GenSrcGff.separator_eq_model, GenSrcGff.writerFor_gff3, GenSrcGff.writerFor_gff2, GenSrcGff.writerFor_gtf2⟩
+
+/-- the records written one after the other through the translated GFF writer, starting from the sink `w` -/
+def gffWriteAll (self : Gen.SrcGff.Writer) : List Gen.SrcGff.Record → List Nat → List Nat
+  | [], w => w
+  | r :: rs, w => gffWriteAll self rs (Gen.SrcGff.write csvSerialize toDec w self r).2
+
+theorem gffWriteAll_eq (d : Dialect) (self : Gen.SrcGff.Writer) (hw : GenSrcGff.WriterFor d self)
+    (recs : List Gen.SrcGff.Record) (hg : ∀ r ∈ recs, ∀ kv ∈ r.attributes, kv.2 ≠ []) (w : List Nat) :
+    gffWriteAll self recs w = w ++ render (recs.map fun r => gffLine d (GenSrcGff.toModel r)) := by
+  induction recs generalizing w with
+  | nil => simp [gffWriteAll, render]
+  | cons r rs ih =>
+    have h1 := GenSrcGff.write_eq_model w d self r hw (hg r (by simp))
+    simp [gffWriteAll, ih (fun s hs => hg s (List.mem_cons_of_mem _ hs)), h1, render]
+
+/-- **GFF/GTF round trip through the writer as written**: the model reader on the bytes the translated writer produces for any
+list of records of the domain returns every record — all columns, and every attribute key with all of its values in order
+(`asRead`: the (key, value) pairs group by group; which group comes first is the map's iteration order and carries no
+information — `gff_roundtrip_source_lookup`) -/
+theorem gff_roundtrip_source (d : Dialect) (hd : d = gff3 ∨ d = gff2) (self : Gen.SrcGff.Writer)
+    (hw : GenSrcGff.WriterFor d self) (recs : List Gen.SrcGff.Record)
+    (hrecs : ∀ r ∈ recs, GffOk d (GenSrcGff.toModel r)) :
+    readGff d (gffWriteAll self recs []) = recs.map fun r => Res.ok (GenSrcGff.toModel r).asRead := by
+  have hg : ∀ r ∈ recs, ∀ kv ∈ r.attributes, kv.2 ≠ [] := fun r hr kv hkv => ((hrecs r hr).attrsOk kv hkv).2.1
+  have h := gff_roundtrip d hd (recs.map GenSrcGff.toModel)
+    ((recs.map GenSrcGff.toModel).map fun r => Item.record (gffLine d r))
+    (by intro r hr; obtain ⟨s, hs, rfl⟩ := List.mem_map.mp hr; exact hrecs s hs)
+    (by simp [List.filterMap_map, Function.comp_def, Item.rec?])
+    (by intro t ht; simp at ht)
+  rw [gffWriteAll_eq d self hw recs hg, List.nil_append]
+  simpa [fileOf, List.map_map, Function.comp_def, Item.line] using h
+
+/-- … in the multimap view, which does not depend on the order of the key groups: looking a key of the record up in what was read
+back gives its value list -/
+theorem gff_roundtrip_source_lookup (r : Gen.SrcGff.Record) (hkeys : (r.attributes.map (·.1)).Nodup)
+    (k : List Nat) (vs : List (List Nat)) (hmem : (k, vs) ∈ r.attributes) :
+    valuesOf (GenSrcGff.toModel r).asRead.pairs k = vs :=
+  valuesOf_flatPairs r.attributes hkeys k vs hmem
+
+-- non-vacuity: a GFF3 writer, a record with a two-valued key
+example : GenSrcGff.WriterFor gff3 (GenSrcGff.writerOf .GFF3) := GenSrcGff.writerFor_gff3
+example : ∀ kv ∈ ([([84], [[120], [121]]), ([73], [[122]])] : List (List Nat × List (List Nat))), kv.2 ≠ [] := by decide
+
+end Source
 
 end RbV.Thm.C13
